@@ -280,6 +280,21 @@ def c01_edit(bits: B8, starts: int, finals: int, which: int, w: Tuple[int, int],
                      realize_obs=False)
 
 
+D5 = Tuple[int, int, int, int, int]
+
+
+def c01_dfa5(b: D5, fin: int, arow: int) -> bool:
+    """
+    pre: pinned(arow=arow, fin=fin, b0=b[0], b1=b[1])
+    pre: enc.in_range(b, 6) & ((0 <= fin) & (fin < 2)) & ((0 <= arow) & (arow < 4))
+    post: _
+    """
+    # 5-state partial DFAs over {a,b} (see enc.dfa5_edges): sizes at which minimize() has real work to do
+    edges = enc.dfa5_edges(arow, b)
+    finals = enc.DFA5_FINALS[enc.pick(fin, 2)]
+    return _structural("c01_dfa5", (b, fin, arow), 2, 5, 2, edges, [0], finals)
+
+
 # state labels that look like the library's merged names
 NAME_LABELS = [0, 1, "0", "1", "0;1", "1;0", "TRASH", "0; 1", ""]
 
@@ -388,5 +403,11 @@ CONDS = [
                    "from {0,1,'0','1','0;1','1;0','TRASH','0; 1',''} (first two labels from pinned subsets, third any) x "
                    "start masks {0},{0,1} x all non-empty final masks",
           "thorough": "all label triples with l0 < l1 (third label any)"},
+         FUNCS, "automaton has an edge, a start and a final state"),
+    Cond("C01", c01_dfa5, lambda tier: (product_pins(arow=[1], fin=[0, 1], b0=[0, 3, 5], b1=[0, 3]) if tier == "quick" else
+                                        product_pins(arow=[0, 1, 2, 3], fin=[0, 1], b0=[0, 1, 3, 5], b1=[0, 2, 3])),
+         {"quick": "DFA with 5 states over {a,b}: a-row = the permutation 0->0, 1->2->3->4->1, arbitrary b-transitions "
+                   "(first two pinned to 6 combinations), finals {2,3,4} / {0,2,4}: the four transformations",
+          "thorough": "4 a-rows (chain, two permutations, 5-cycle), b0 in 4 and b1 in 3 values"},
          FUNCS, "automaton has an edge, a start and a final state"),
 ]
